@@ -170,6 +170,10 @@ def gen_backlog(rng, p_waitidle=0.0, **_):
 GENS = {'core': gen.gen_core, 'backlog': gen_backlog, 'chain': gen.gen_chain, 'stop': gen.gen_stop, 'idle': gen.gen_idle, 'deep': gen.gen_deep, 'sibling': gen.gen_sibling, 'parraise': gen.gen_parraise, 'deepfwd': gen.gen_deepfwd, 'parshare': gen.gen_parshare, 'partimeout': gen.gen_partimeout, 'cycle': gen.gen_cycle, 'errnest': gen.gen_errnest, 'fwdfail': gen.gen_fwdfail, 'evictgap': gen.gen_evictgap}
 
 
+MIX_SHARE = 0.15
+NO_MIX = set()
+
+
 def corpus(prop):
     out = []
     for p in sorted(glob.glob(os.path.join(ROOT, 'corpus', '*.json'))):
@@ -185,6 +189,20 @@ def scenarios(prop, tier, seed):
         yield f'corpus:{name}', sc, cfg, 'corpus'
     fam = FAMILIES[prop]
     total = BUDGET[tier]
+    # a slice of every family's budget goes to the union of all families' streams: defects sit where features meet (the WAL and
+    # completion, stop() and the lock, bus names and awaits, ...), and every monitor is evaluated on every history anyway
+    mix = int(total * MIX_SHARE) if prop not in NO_MIX else 0
+    union = [(g, o) for p_, f_ in sorted(FAMILIES.items()) if 'gens' in f_ and p_ != 'XPAR' for (g, o, _) in f_['gens']]
+    rng = random.Random(f'{prop}:mix:{seed}')
+    for i in range(mix):
+        gname, opts = union[rng.randrange(len(union))]
+        sc = GENS[gname](rng, **opts)
+        if len(sc['buses']) > 1 and 'bus_order' not in sc:
+            order = list(range(len(sc['buses'])))
+            rng.shuffle(order)
+            sc['bus_order'] = order
+        yield f'mix:{seed}:{i}', sc, None, 'mix'
+    total -= mix
     for gi, (gname, opts, share) in enumerate(fam['gens']):
         rng = random.Random(f'{prop}:{gname}:{gi}:{seed}')
         for i in range(int(total * share)):
